@@ -51,14 +51,20 @@ class Fresh:
             return False, f'the read can be reached without snapshotting {epoch}'
         if cfg.find_path([read_node], {read_node}, avoiding=gn) is not None:
             return False, f'the read can be repeated without re-taking the snapshot of {epoch}'
-        # no suspension between the snapshot and the read (other than the read itself)
-        for g in gn:
-            between = cfg.reachable_from(g, avoiding={read_node}) & self._reaching(cfg, read_node, avoiding=gn)
-            for n in between:
-                a = cfg.ast(n)
-                if a is not None and cfg.kind(n) not in ('with_exit',) and self.stmt_unvalidated_suspension(a, f):
-                    return False, f'a suspension lies between the snapshot of {epoch} and the read: {cfg.label(n)}'
+        # (a suspension between the snapshot and the read only widens the validated window: an invalidation inside it makes
+        # the comparison fail and the read is redone - safe, so it is not required that the snapshot be adjacent to the read)
         return True, None
+
+    def snapshot_after(self, f, cfg, snap, epoch, susp_node, test_node):
+        '''The snapshot is (re)taken on every path from the suspension to the test: whatever is read after the suspension
+        and before the snapshot is read without a further suspension in between (any such suspension is judged on its
+        own), so it is as fresh as the snapshot the test validates.'''
+        defs = [s for s in q.assigns(self.ctx, f, snap)]
+        good = [s for s in defs if isinstance(s, ast.Assign) and self.ctx.res.canon(s.value, f) == epoch]
+        if not good or len(good) != len(defs):
+            return False
+        gn = {cfg.node(s) for s in good}
+        return pr.path_avoiding(cfg, [susp_node], [test_node], gn) is None
 
     def _reaching(self, cfg, target, avoiding=()):
         rg = cfg.g.reverse(copy=False)
@@ -125,7 +131,7 @@ class Fresh:
             ok_cut = set()
             for (s, snap, epoch, tn) in valid_tests:
                 good, _why = self.snapshot_ok(f, cfg, snap, epoch, n)
-                if good:
+                if good or self.snapshot_after(f, cfg, snap, epoch, n, tn):
                     ok_cut |= {e for e in cut_edges if e[0] == tn}
             if self._reaches_exit_without(cfg, n, ok_cut):
                 reason = f'{f.qual}:{getattr(a, "lineno", 0)} {r}'
@@ -164,7 +170,7 @@ class Fresh:
             for (s, snap, epoch, eq_is_body) in tests:
                 tn = cfg.node(s)
                 good, _w = self.snapshot_ok(f, cfg, snap, epoch, n)
-                if not good:
+                if not good and not self.snapshot_after(f, cfg, snap, epoch, n, tn):
                     continue
                 for m in cfg.g.successors(tn):
                     kinds = cfg.g[tn][m]['kinds']
